@@ -35,6 +35,7 @@ var c15Rules = []string{
 	"example.org,~example.org##.s5",      // a rule that excludes its own permitted domain
 	"a.sub.example.org##.s1",             // the same selector from a deeper domain
 	"example.com,~sub.example.org#@#.g1",
+	"~example.com##.g2", // same selector as the other generic rule, different exclusion
 }
 
 var c15Hosts = []string{"example.org", "sub.example.org", "a.sub.example.org", "example.com", "notexample.org", "other.net", "google.com", "www.google.co.uk", "x.google.agoogle.com"}
